@@ -1069,6 +1069,9 @@ def _process_add_event_tick(
     # as a normal accepted event (which would cause duplicate processing).
     waiter_resolved_steps: set[str] = set()
     for step_name, step_config in state.config.steps.items():
+        if tick.step_name is not None and tick.step_name != step_name:
+            # Addressed to another step (targeted send or a retry re-queue).
+            continue
         wait_conditions = state.workers[step_name].collected_waiters
         for wait_condition in wait_conditions:
             if wait_condition.resolved_event is not None:
